@@ -8,6 +8,7 @@ import (
 	"io"
 	"os"
 	"os/exec"
+	"path/filepath"
 	"strings"
 	"sync"
 	"syscall"
@@ -32,6 +33,8 @@ type recvProcOpt struct {
 	// TmpSeed != 0 pins the writer's temporary-name generator (hook
 	// fsutil.VerifSeedTempNames, build tag verif)
 	TmpSeed uint32 `json:"tmpseed,omitempty"`
+	// RejectBase != "": ReceiveOpt.Filter rejects every entry with that base name
+	RejectBase string `json:"rejectbase,omitempty"`
 }
 
 type recvProcResult struct {
@@ -54,6 +57,9 @@ func init() {
 			fsutil.VerifSeedTempNames(o.TmpSeed)
 		}
 		ropt := fsutil.ReceiveOpt{Merge: o.Merge, Differ: fsutil.DiffType(o.Differ)}
+		if o.RejectBase != "" {
+			ropt.Filter = func(p string, _ *types.Stat) bool { return filepath.Base(p) != o.RejectBase }
+		}
 		nrec := newNotifyRec()
 		if o.Notify {
 			ropt.NotifyHashed = nrec.fn
